@@ -180,6 +180,45 @@ fn c05(tier: Tier, seed: u64, case: u64) -> CaseReport {
         }
         (out, events)
     });
+    // ---- LSP level (sample): textDocument/references and the inlay hints of every note
+    if case % 6 == 0 && locus == "clean" {
+        crate::lsp::reset_log();
+        let mut s = crate::lsp::Server::start_mem(&texts, "");
+        let titles: BTreeMap<String, String> = texts.iter().filter_map(|(k, t)| mdscan::title_of(&mdscan::scan(t)).map(|x| (k.clone(), norm(&x)))).collect();
+        for k in texts.keys() {
+            let uri = s.uri(k);
+            rep.count("lsp_reference_requests", 1);
+            if let crate::lsp::Outcome::Result(v) = s.request("textDocument/references", json!({"textDocument": {"uri": uri}, "position": {"line": 0, "character": 0}, "context": {"includeDeclaration": false}})) {
+                let mut got: Vec<(String, usize)> = v.as_array().cloned().unwrap_or_default().iter().map(|l| (l["uri"].as_str().and_then(|u| s.key_of_uri(u)).unwrap_or_default(), l["range"]["start"]["line"].as_u64().unwrap_or(u64::MAX) as usize)).collect();
+                got.sort();
+                let mut want: Vec<(String, usize)> = eb.get(k).cloned().unwrap_or_default().into_iter().chain(ei.get(k).cloned().unwrap_or_default().into_iter()).collect();
+                want.sort();
+                if got != want {
+                    rep.violate("lsp-references-differ", "clean", format!("references({}) = {:?}, scan finds {:?}", k, got, want), replay.clone());
+                }
+            }
+            if let crate::lsp::Outcome::Result(v) = s.request("textDocument/inlayHint", json!({"textDocument": {"uri": uri}, "range": {"start": {"line": 0, "character": 0}, "end": {"line": 100000, "character": 0}}})) {
+                let labels: Vec<(String, usize)> = v.as_array().cloned().unwrap_or_default().iter().map(|h| (h["label"].as_str().unwrap_or("").to_string(), h["position"]["line"].as_u64().unwrap_or(u64::MAX) as usize)).collect();
+                // inline reference counter
+                let n_inline = ei.get(k).map(|s| s.len()).unwrap_or(0);
+                let counter: Vec<&(String, usize)> = labels.iter().filter(|l| l.0.starts_with('‹')).collect();
+                let want_counter = if n_inline > 0 { vec![(format!("‹{}›", n_inline), 0usize)] } else { vec![] };
+                if counter.iter().map(|x| (*x).clone()).collect::<Vec<_>>() != want_counter {
+                    rep.violate("lsp-inline-counter-hint", "clean", format!("note {}: hints {:?}, {} inline references by the scan", k, counter, n_inline), replay.clone());
+                }
+                // container hints: one per distinct title of the notes that block-reference k
+                let mut want_up: Vec<String> = eb.get(k).cloned().unwrap_or_default().iter().map(|(o, _)| format!("↖{}", titles.get(o).cloned().unwrap_or_default())).collect();
+                want_up.sort();
+                want_up.dedup();
+                let mut got_up: Vec<String> = labels.iter().filter(|l| l.0.starts_with('↖')).map(|l| norm(&l.0)).collect();
+                got_up.sort();
+                if got_up != want_up {
+                    rep.violate("lsp-container-hint", "clean", format!("note {}: container hints {:?}, expected {:?}", k, got_up, want_up), replay.clone());
+                }
+            }
+        }
+        let _ = s.shutdown();
+    }
     match r {
         Ok((diffs, events)) => {
             rep.count("events", events);
